@@ -273,7 +273,34 @@ pub fn server_start_seeds() -> Vec<Vec<u8>> {
     v
 }
 
-pub const TARGETS: [&str; 4] = ["decoders", "login_response", "server_finish", "server_start"];
+/// `data = [suite, tape base, 8-byte ops...]`: a whole adversarially routed history on one server
+/// (see `crate::history`).  Oracle: acceptance by provenance (C07), C13 for re-serialised states.
+pub fn history_target(data: &[u8]) -> Result<(), String> {
+    if data.len() < 2 {
+        return Ok(());
+    }
+    let ss = suites();
+    let s = ss[data[0] as usize % ss.len()];
+    let mut st = crate::history::HistoryStats::default();
+    let r = crate::history::run_history(s, data, &mut st);
+    if let Ok(mut t) = HISTORY_TOTALS.lock() {
+        t.add(&st);
+    }
+    r
+}
+
+static HISTORY_TOTALS: std::sync::Mutex<crate::history::HistoryStats> = std::sync::Mutex::new(crate::history::HistoryStats::ZERO);
+
+/// what the histories replayed so far in this process contained (for the evidence file)
+pub fn history_totals() -> crate::history::HistoryStats {
+    HISTORY_TOTALS.lock().map(|t| t.clone()).unwrap_or_default()
+}
+
+pub fn history_seeds() -> Vec<Vec<u8>> {
+    crate::history::seeds(suites().len())
+}
+
+pub const TARGETS: [&str; 5] = ["decoders", "login_response", "server_finish", "server_start", "history"];
 
 pub fn run_target(target: &str, data: &[u8]) -> Result<(), String> {
     match target {
@@ -281,6 +308,7 @@ pub fn run_target(target: &str, data: &[u8]) -> Result<(), String> {
         "login_response" => login_response_target(data),
         "server_finish" => server_finish_target(data),
         "server_start" => server_start_target(data),
+        "history" => history_target(data),
         other => Err(format!("HARNESS-BUG: unknown fuzz target {other}")),
     }
 }
